@@ -305,7 +305,8 @@ mod te {
             if unb && r != "1" {
                 println!("VIOL unbounded configuration does not accept a valid deeply nested document ({}): {}", label, r);
             }
-            deep.item(&r);
+            // (only the verdict is compared across configurations; the wording of an error may depend on features)
+            deep.item(if r == "1" { "1" } else if r.starts_with("PANIC") { &r } else { "0" });
         }
         deep.done();
         verdict.done();
@@ -516,7 +517,8 @@ mod tm {
             if unb && r != "1" {
                 println!("VIOL unbounded configuration does not accept a valid deeply nested document through toml::from_str ({}): {}", label, r);
             }
-            deep.item(&r);
+            // (only the verdict is compared across configurations; the wording of an error may depend on features)
+            deep.item(if r == "1" { "1" } else if r.starts_with("PANIC") { &r } else { "0" });
         }
         deep.done();
         verdict.done();
@@ -541,6 +543,7 @@ mod tm {
                 if depth > 0 {
                     kv.push(("sub", ek(3, depth - 1)));
                     kv.push(("a", ek(2, depth - 1)));
+                    kv.push(("m", ek(4, depth - 1)));
                 }
                 let t = tab(kv);
                 V::Array(vec![t.clone(), t])
@@ -550,6 +553,8 @@ mod tm {
                 if depth > 0 {
                     kv.push(("b", ek(2, depth - 1)));
                     kv.push(("a", ek(3, depth - 1)));
+                    kv.push(("m", ek(4, depth - 1)));
+                    kv.push(("e", ek(6, depth - 1)));
                     kv.push(("c", V::Integer(3)));
                 }
                 tab(kv)
@@ -714,6 +719,14 @@ mod tm {
                         model.sort_by(|a, b| a.0.cmp(&b.0));
                     }
                     let robs: Vec<(String, i64)> = real.iter().map(|(k, v)| (k.clone(), iv(v))).collect();
+                    let rrev: Vec<(String, i64)> = real.iter().rev().map(|(k, v)| (k.clone(), iv(v))).collect();
+                    let krev: Vec<String> = real.keys().rev().cloned().collect();
+                    let mut mrev = model.clone();
+                    mrev.reverse();
+                    if rrev != mrev || krev != mrev.iter().map(|(k, _)| k.clone()).collect::<Vec<_>>() {
+                        println!("VIOL toml::Map history {:?} from {:?}: back-to-front iteration {:?} is not the reverse of the reference {:?}", hist, start, rrev, model);
+                        break;
+                    }
                     if rr != mr || robs != model || real.len() != model.len() {
                         println!("VIOL toml::Map history {:?} from {:?}: returned {:?} (reference {:?}), iteration {:?} (reference {:?})", hist, start, rr, mr, robs, model);
                         break;
